@@ -81,6 +81,22 @@ def class_const(relpath, clsname, attr):
     return None
 
 
+def module_binds(relpath, name):
+    """Does the real module bind `name` at top level (import, def, class, assignment)?"""
+    tree, src = module_ast(relpath)
+    for st in ast.walk(tree):
+        if isinstance(st, (ast.Import, ast.ImportFrom)):
+            for a in st.names:
+                if (a.asname or a.name.split('.')[0]) == name:
+                    return True
+    for st in tree.body:
+        if isinstance(st, (ast.FunctionDef, ast.ClassDef)) and st.name == name:
+            return True
+        if isinstance(st, ast.Assign) and any(isinstance(t, ast.Name) and t.id == name for t in st.targets):
+            return True
+    return False
+
+
 def module_const(relpath, name):
     tree, src = module_ast(relpath)
     for st in tree.body:
